@@ -107,6 +107,17 @@ CHECKS = {
         ],
         'assumptions': ASSUME_COMMON,
     },
+    'C17': {
+        'level': 'model_checking',
+        'jobs': [
+            T('MC_Msg', 'Msg.cfg', workers=4),
+            C('msg', 'TestMsg', 'TraceMsg', n={'quick': 12, 'thorough': 150}, trivial_len=6),
+            C('msgpool', 'TestMsgPool', 'TraceMsg', trivial_len=0, vtimeout=3000),
+            R('xpub', 'xpub'), R('xstar', 'xstar'), R('xbus', 'xbus'),
+            C('sub', 'TestSub', 'TraceSub', n={'quick': 40, 'thorough': 400}),
+        ],
+        'assumptions': ASSUME_COMMON + ['the ledger hooks in message.go (verif tag) report every NewMessage / Clone / Free; released buffers are poisoned by the hook'],
+    },
     'C02': {
         'level': 'model_checking',
         'jobs': [
